@@ -14,7 +14,7 @@
      apart (a vector of up to LMAX = 2^60 u64 elements spans at most CAP slots); every occurring digest
      at least CAP below 2^256. *)
 From SwayV Require Import Base.Util Generated.C28Facts C28.Model C28.Step C28.Spec C28.StoreLemmas C28.ApiLemmas
-  C28.ListN C28.VecProofs C28.Frame C28.MapProofs C28.HashFrame.
+  C28.ListN C28.VecProofs C28.Frame C28.MapProofs C28.HashFrame C28.QuadLemmas C28.ListG C28.VecWProofs C28.MapWProofs C28.HashFrameW.
 Open Scope N_scope.
 
 (* storage_api.sw slot arithmetic: a u64 at word offset `off` of `slot` lives in slot + off/4, word off mod 4 *)
@@ -156,6 +156,92 @@ Theorem C28_frame_map_map : forall (H : list N -> N) (occ : list N -> Prop),
 Proof. exact map_frame_map. Qed.
 Print Assumptions C28_frame_map_map.
 
+(* ---------- values of w words at any word offset (incl. straddling slot boundaries) ---------- *)
+(* write_quads of a w-word value at word offset `off`: exactly the words off .. off+w-1 of the region change,
+   the nsl (off mod 4) w slots from slot + off/4 become set, no other slot changes *)
+Theorem C28_write_quads_words : forall isref s slot off ws,
+  let W := N.of_nat (length ws) in
+  1 <= W -> (isref = true \/ W = 1) -> off + W < LMAX -> slot + off / 4 + nsl (off mod 4) W <= W256 ->
+  exists s', write_quads isref s slot off ws = Ok s'
+    /\ (forall i, wread s' slot i = if (off <=? i) && (i <? off + W) then nthN ws (i - off) else wread s slot i)
+    /\ (forall j, slot + off / 4 <= j < slot + off / 4 + nsl (off mod 4) W -> sget s' j <> None)
+    /\ (forall j, ~ (slot + off / 4 <= j < slot + off / 4 + nsl (off mod 4) W) -> sget s' j = sget s j).
+Proof. exact write_quads_spec. Qed.
+Print Assumptions C28_write_quads_words.
+
+(* read_quads returns those w words, iff all slots of the range are set *)
+Theorem C28_read_quads_words : forall w isref s slot off,
+  let W := N.of_nat w in
+  1 <= W -> (isref = true \/ W = 1) -> off + W < LMAX -> slot + off / 4 + nsl (off mod 4) W <= W256 ->
+  exists b : bool, read_quads w isref s slot off = Ok (if b then Some (map (fun t => wread s slot (off + t)) (Nseq W)) else None)
+    /\ (b = true <-> forall j, slot + off / 4 <= j < slot + off / 4 + nsl (off mod 4) W -> sget s j <> None).
+Proof. exact read_quads_spec. Qed.
+Print Assumptions C28_read_quads_words.
+
+(* StorageVec<V>, V of w words (reference type or one word; flag `isref`): every method except
+   store_vec / load_vec / iter refines the list model over word lists; elements straddle slot boundaries
+   whenever w is not a multiple of 4.  vecw_step_g true = vecw_step (the OVecW operations of the runs). *)
+Theorem C28_vecw_refines : forall (H : list N -> N) (f : N) (w : nat) (isref : bool) (EMAX : N),
+  f < W256 -> hash_b256 H f + CAP <= W256 -> f < hash_b256 H f \/ hash_b256 H f + CAP <= f ->
+  1 <= N.of_nat w -> isref = true \/ N.of_nat w = 1 -> N.of_nat w * (EMAX + 1) < LMAX ->
+  forall (s : store) (o : wop),
+  vecw_inv H w s f -> abs_len s f + 1 < EMAX -> wop_proved w EMAX o ->
+  match spec_vecw (abs_vecw H w s f) o with
+  | Some (l', out) =>
+    exists s' mo, vecw_step_g H isref w s f o = Ok (s', mo) /\ abs_vecw H w s' f = l' /\ vecw_inv H w s' f
+                  /\ abs_len s' f = lenG (list N) l' /\ (forall so, out = Some so -> mo = so) /\ outsideW H f s s'
+  | None => vecw_step_g H isref w s f o = Err 1
+  end.
+Proof. exact vecw_refines. Qed.
+Print Assumptions C28_vecw_refines.
+
+Theorem C28_vecw_refines_hash : forall (H : list N -> N) (occ : list N -> Prop),
+  (forall p q, occ p -> occ q -> H p = H q -> p = q) ->
+  (forall p q, occ p -> occ q -> H p <> H q -> H p + CAP <= H q \/ H q + CAP <= H p) ->
+  (forall p, occ p -> H p + CAP <= W256) ->
+  forall name w EMAX s o,
+  vec_occ H occ name -> 1 <= N.of_nat w -> N.of_nat w * (EMAX + 1) < LMAX ->
+  let f := field_id H name in
+  vecw_inv H w s f -> abs_len s f + 1 < EMAX -> wop_proved w EMAX o ->
+  match spec_vecw (abs_vecw H w s f) o with
+  | Some (l', out) =>
+    exists s' mo, vecw_step H w s f o = Ok (s', mo) /\ abs_vecw H w s' f = l' /\ vecw_inv H w s' f
+                  /\ abs_len s' f = lenG (list N) l' /\ (forall so, out = Some so -> mo = so) /\ outside H f s s'
+  | None => vecw_step H w s f o = Err 1
+  end.
+Proof. exact vecw_refines_hash. Qed.
+Print Assumptions C28_vecw_refines_hash.
+
+(* StorageMap<K, V>, V of w words (any number of slots): refinement of the function model on the occurring keys *)
+Theorem C28_map_refines : forall (H : list N -> N) (occ : list N -> Prop),
+  (forall p q, occ p -> occ q -> H p = H q -> p = q) ->
+  (forall p q, occ p -> occ q -> H p <> H q -> H p + CAP <= H q \/ H q + CAP <= H p) ->
+  (forall p, occ p -> H p + CAP <= W256) ->
+  forall f w isref s o,
+  1 <= N.of_nat w -> N.of_nat w <= CAP -> isref = true \/ N.of_nat w = 1 ->
+  mop_width_ok w o -> occ (map_preimage (mop_key o) f) ->
+  let '(m', out) := spec_map (abs_map H w isref s f) o in
+  exists s', map_step H w isref s f o = Ok (s', out)
+             /\ forall kb', occ (map_preimage kb' f) -> abs_map H w isref s' f kb' = m' kb'.
+Proof. exact map_w_refines_hash. Qed.
+Print Assumptions C28_map_refines.
+
+(* frame: whatever is confined to field `name` (vec_refines / vecw_refines / bytes footprints) leaves a
+   vector of w-word elements at another field unchanged *)
+Theorem C28_frame_vecw : forall (H : list N -> N) (occ : list N -> Prop),
+  (forall p q, occ p -> occ q -> H p = H q -> p = q) ->
+  (forall p q, occ p -> occ q -> H p <> H q -> H p + CAP <= H q \/ H q + CAP <= H p) ->
+  (forall p, occ p -> H p + CAP <= W256) ->
+  forall name name2 w s s',
+  vec_occ H occ name -> vec_occ H occ name2 -> name <> name2 ->
+  outside H (field_id H name) s s' ->
+  N.of_nat w * abs_len s (field_id H name2) <= LMAX ->
+  abs_len s' (field_id H name2) = abs_len s (field_id H name2)
+  /\ abs_vecw H w s' (field_id H name2) = abs_vecw H w s (field_id H name2)
+  /\ (vecw_inv H w s (field_id H name2) -> vecw_inv H w s' (field_id H name2)).
+Proof. exact frame_vecw. Qed.
+Print Assumptions C28_frame_vecw.
+
 (* Non-vacuity.  A toy hash that places the pre-image [b0; ...] at (b0 + 2) * 2^200: hypotheses of
    C28_vec_refines_partial hold for field 5, and a concrete history behaves as stated. *)
 Definition toyH (p : list N) : N := (hd 0 p + 2) * 2 ^ 200.
@@ -181,3 +267,12 @@ Example C28_example_map :
   | _ => False
   end.
 Proof. vm_compute. split; reflexivity. Qed.
+(* a vector of 3-word structs: elements 1 and 2 straddle slot boundaries *)
+Example C28_example_vecw :
+  match fold_left (fun acc o => match acc with Ok (s, _) => vecw_step toyH 3 s 5 o | e => e end)
+          [WPush [1;2;3]; WPush [4;5;6]; WPush [7;8;9]; WSet 1 [40;50;60]; WRemove 0] (Ok ([], [])) with
+  | Ok (s, out) => out = [1;2;3] /\ abs_vecw toyH 3 s 5 = [[40;50;60]; [7;8;9]]
+                   /\ vecw_step toyH 3 s 5 (WGet 1) = Ok (s, [1;7;8;9])
+  | _ => False
+  end.
+Proof. vm_compute. repeat split; reflexivity. Qed.
